@@ -33,6 +33,10 @@ var (
 		"JSIGHT 0.3\nGET /a\n  Query \"a=1\" htmlFormEncoded\n    {\"a\": 1}\n  OperationId op1\n  200 any\n",
 		"JSIGHT 0.3\nURL /a\n(\n  GET\n  (\n    200 any\n  )\n)\n",
 		"JSIGHT 0.3\nTYPE @r regex\n  /a+/\nGET /a/{id}\n  Path\n    {\"id\": @r}\n  200 [@r]\n",
+		"JSIGHT 0.3\nTYPE @r regex\n  /abc/\nGET /a/{id}\n  Path\n    @r\n  200 any\n",
+		"JSIGHT 0.3\nTYPE @o\n  {\"id\": 1}\nGET /a/{id}\n  Path\n    @o\n  200 any\n",
+		"JSIGHT 0.3\nTYPE @o\n  {\"id\": 1}\nURL /a/{id}/{k}\n  Path\n    { // {allOf: \"@o\"}\n      \"k\": \"x\"\n    }\n  GET\n    200 any\n",
+		"JSIGHT 0.3\nTYPE @e empty\nTYPE @y any\nGET /a/{id}\n  Path\n    {\"id\": @y}\n  200 @e\n",
 	}
 )
 
